@@ -65,7 +65,7 @@ OpResult World::op_make_face(const Op &op) {
     f.preload_all = (f.options & 6) == 6;
     f.store = new Store(); f.store->id = int(faces.size()) + 100 * id; f.store->font = op.s; f.store->tables = fi->tables;
     bool any_override = false, any_content = false, any_synth = false;   // synthesised Silf/Feat name only real glyphs: the gid clause stays on
-    for (auto &ft : op.faults) if (ft.kind.compare(0, 4, "OVR_") == 0) { if (override_fn) override_fn(*f.store, ft); if (ft.kind != "OVR_SILF" && ft.kind != "OVR_FEAT") any_override = true; else any_synth = true; }
+    for (auto &ft : op.faults) if (ft.kind.compare(0, 4, "OVR_") == 0) { if (override_fn) override_fn(*f.store, ft); if (ft.kind != "OVR_SILF" && ft.kind != "OVR_SILFPROG" && ft.kind != "OVR_FEAT") any_override = true; else any_synth = true; }
     for (auto &ft : op.faults) if (ft.kind.compare(0, 4, "OVR_") != 0) { f.faulted = true; if (!is_file_fn(ft.tag) && ft.kind != "FILE_TRUNCATED" && ft.kind != "DIR_BITROT") any_content = true; }
     f.pristine_gids = !f.faulted && !any_override;
     if (any_override) f.faulted = f.faulted; // overrides are legal storage formats, not faults
